@@ -14,6 +14,11 @@ META = {
                     "frame table validated with the dense constraint Jacobian only (sparse Jacobian: end-to-end clause only)"],
 }
 ALLF = 0x7FFFF
+# fields defined by mj_inverse from (integration state, qacc): position and velocity stage quantities, the
+# inverse outputs, energy and sensors
+INV_FIELDS = ["qfrc_inverse", "energy", "sensordata", "xpos", "xquat", "xmat", "xipos", "ximat", "geom_xpos", "geom_xmat",
+              "site_xpos", "site_xmat", "subtree_com", "cinert", "cdof", "cvel", "cdof_dot", "qfrc_bias", "qfrc_passive",
+              "qfrc_constraint", "ten_length", "ten_velocity", "actuator_length", "actuator_velocity", "qM", "qLD"]
 TABLE = os.path.join(F.VERIF, "harness", "c01_table.json")
 
 
@@ -77,8 +82,12 @@ Eval vm_compute in (show prog_step "mjINT_IMPLICIT").
         for recv in range(5):
             integ = rng.choice([0, 1, 2, 3])
             D = {0: Deuler, 1: Drk4, 2: Dimpl, 3: Dimpl}[integ]
-            fn = rng.choice(["mj_forward", "mj_step", "mj_step3", "mj_forward_inverse"])
-            FL = sorted(set(Dfwd if fn in ("mj_forward", "mj_forward_inverse") else D) | set(extra))
+            fn = rng.choice(["mj_forward", "mj_step", "mj_step3", "mj_forward_inverse", "mj_inverse_q"])
+            if fn == "mj_inverse_q":
+                # mj_inverse alone (qacc set by the driver): compare what inverse dynamics defines
+                FL = sorted(INV_FIELDS)
+            else:
+                FL = sorted(set(Dfwd if fn in ("mj_forward", "mj_forward_inverse") else D) | set(extra))
             lines.append("E %d %d %d %d %d %d %s %d %s" % (seed, feat, nb, integ, en, recv, fn, len(FL), " ".join(FL)))
             meta.append(("E", "%s recv=%d integ=%d" % (fn, recv, integ)))
     rc, outp, err = ctx.run(exe, "\n".join(lines) + "\n", timeout=2400)
